@@ -16,6 +16,7 @@ import (
 	"github.com/ipfs/go-cid"
 	format "github.com/ipfs/go-ipld-format"
 	coreiface "github.com/ipfs/kubo/core/coreiface"
+	"github.com/libp2p/go-libp2p/core/crypto"
 )
 
 const (
@@ -27,10 +28,11 @@ const (
 	badForeignGenuine  // entry validly signed for another log id
 	badDenied          // written by an identity the destination's access controller refuses
 	badDeniedPayload   // genuine entry of a permitted writer whose payload the destination's controller refuses (a policy on the entry itself)
+	badRelabelled      // key and identity replaced by another writer's; the identity object is bound to a provider of another type that resolves every key to the real signer's
 	badKinds
 )
 
-var badNames = []string{"no-key", "no-signature", "signature-of-another-entry", "payload-changed", "foreign-log-id(tampered)", "foreign-log-id(genuine)", "denied-writer", "denied-payload"}
+var badNames = []string{"no-key", "no-signature", "signature-of-another-entry", "payload-changed", "foreign-log-id(tampered)", "foreign-log-id(genuine)", "denied-writer", "denied-payload", "relabelled-with-foreign-provider"}
 
 func orderedMapOf(es []iface.IPFSLogEntry) iface.IPFSLogOrderedEntries {
 	m := entry.NewOrderedMap()
@@ -173,6 +175,13 @@ func H_C06() {
 			x.SetPayload([]byte("forged"))
 		case badForeignTampered:
 			x.SetLogID("other")
+		case badRelabelled:
+			signer, other := ids[bad%2], ids[(bad+1)%2]
+			pk, err := signer.Provider.UnmarshalPublicKey(signer.PublicKey)
+			vx.Assume(err == nil)
+			x.SetKey(other.PublicKey)
+			x.SetIdentity(&idp.Identity{ID: other.ID, PublicKey: other.PublicKey, Signatures: other.Signatures, Type: "external",
+				Provider: &foreignProvider{inner: other.Provider, key: pk}})
 		}
 		offered[bad] = x
 	}
@@ -313,3 +322,23 @@ func H_C06_append() {
 
 var _ = register("H_C06", H_C06)
 var _ = register("H_C06_append", H_C06_append)
+
+// foreignProvider: an identity provider of another type than the log's, as an entry handed over in memory may
+// carry in its (unsigned) identity object; it resolves every key to the one key it manages.
+type foreignProvider struct {
+	inner idp.Interface
+	key   crypto.PubKey
+}
+
+func (f *foreignProvider) GetID(c context.Context, o *idp.CreateIdentityOptions) (string, error) {
+	return f.inner.GetID(c, o)
+}
+func (f *foreignProvider) SignIdentity(c context.Context, data []byte, id string) ([]byte, error) {
+	return f.inner.SignIdentity(c, data, id)
+}
+func (f *foreignProvider) GetType() string                    { return "external" }
+func (f *foreignProvider) VerifyIdentity(*idp.Identity) error { return nil }
+func (f *foreignProvider) Sign(c context.Context, i *idp.Identity, b []byte) ([]byte, error) {
+	return f.inner.Sign(c, i, b)
+}
+func (f *foreignProvider) UnmarshalPublicKey([]byte) (crypto.PubKey, error) { return f.key, nil }
